@@ -134,7 +134,7 @@ CLAIMED['C09'] = dict(
          'spline interpolants; it is watched by an oracle sweep with tolerances at 3x the error measured on this tree (regression guard only).',
     note=NOTE + ' IEEE rounding enters only through the explicit rounding function of wrap; np.gradient/np.unwrap/medfilt are modelled concretely and validated on dyadic data.')
 CLAIMED['C15'] = dict(
-    technique='Coq proof over a state-machine model of the Cycles container (induction over all operation histories; parametric in the reducing function; string-level condition parser) + differential correspondence of random operation histories with cache on and off + model-free oracle + TRANSLATION TIE (Prop_Tie_Cyclesobj.v): the bodies of Cycles.pick_cycle_subset, get_matching_cycles, _parse_condition, add_cycle_metric, _safe_add_metric (container state threaded explicitly, erasure proved) are regenerated from the source on every run by a fail-closed ast translator and machine-checked refinement theorems show the hand model computes exactly what the translated program computes for every oracle behaviour + SECOND TRANSLATION TIE (Prop_Tie_Cyclestat.v): the bodies of make_slice_cache and get_slice_stat_from_samples (cached path = label path) are regenerated from the source on every run by a fail-closed ast translator and machine-checked refinement theorems show the hand model computes exactly what the translated program computes for every oracle behaviour',
+    technique='Coq proof over a state-machine model of the Cycles container (induction over all operation histories; parametric in the reducing function; string-level condition parser) + differential correspondence of random operation histories with cache on and off + model-free oracle + TRANSLATION TIE (Prop_Tie_Cyclesobj.v): the bodies of Cycles.pick_cycle_subset, get_matching_cycles, _parse_condition, add_cycle_metric, _safe_add_metric, and in Prop_Tie_Cyclesobj2.v __init__, compute_cycle_metric, compute_cycle_timings, compute_chain_metric, get_metric_dataframe (container state threaded explicitly, erasure proved) are regenerated from the source on every run by a fail-closed ast translator and machine-checked refinement theorems show the hand model computes exactly what the translated program computes for every oracle behaviour + SECOND TRANSLATION TIE (Prop_Tie_Cyclestat.v): the bodies of make_slice_cache and get_slice_stat_from_samples (cached path = label path) are regenerated from the source on every run by a fail-closed ast translator and machine-checked refinement theorems show the hand model computes exactly what the translated program computes for every oracle behaviour',
     text='Theorems (Prop_C15.v) prove by induction over EVERY operation history (compute metric in cycle/augmented mode for any function, add metric, '
          'timings, pick subset, chain timings, exports) that every stored metric has one entry per cycle and equals the function applied to that '
          'cycle\'s samples, that the subset is exactly the cycles satisfying all condition strings at the time of the pick numbered in order, that chains '
